@@ -31,8 +31,11 @@ def check(spec: dict) -> core.CaseResult:
 
 
 def plan(tier: str) -> list[dict]:
-    return dagprop.std_plan(tier, controlled=(10, 150, 2500), serial=(1, 40, 800), fork=(0, 0, 0), spawn=(0, 0, 0),
-                            gated_fork=(4, 12, 400), gated_spawn=(1, 3, 60))
+    q = tier == 'quick'
+    jobs = list(dagprop.std_plan(tier, controlled=(10, 150, 2500), serial=(1, 40, 800), fork=(0, 0, 0), spawn=(0, 0, 0),
+                            gated_fork=(4, 12, 400), gated_spawn=(1, 3, 60)))
+    jobs += [{'engine': 'executor-machine', 'n': 12 if q else 400, 'steps': 14 if q else 30, 'hashseed': i} for i in range(2)]
+    return jobs
 
 
 def strategy(eng: str, gated: bool, seed: int):
@@ -47,6 +50,10 @@ def strategy(eng: str, gated: bool, seed: int):
 
 
 def run_job(rec: core.Recorder, job: dict, seed: int) -> None:
+    if job['engine'] == 'executor-machine':
+        from pbt import execmachine
+        execmachine.run_machines(rec, 'executor-machine', 'C04:', job['n'], job['steps'], seed)
+        return
     eng, gated = dagprop.backend_of(job['engine'])
     core.run_hypothesis(rec, job['engine'], strategy(eng, gated, seed), check, max_examples=job['n'], seed=seed,
                         shrink=(eng == 'controlled' or rec.tier == 'thorough'))
